@@ -79,6 +79,24 @@ def replay_box(arg):
         mism.append(("corners-vs-object", "crop_pointcloud(get_corners) differs from DynamicObject.crop_pointcloud", rep))
     if n != len(gin) or ex != (n > 0):
         mism.append(("count", "get_inside_pointcloud_num %d vs %d" % (n, len(gin)), rep))
+    # the same box pitched / rolled: its footprint can only shrink (by cos), and bottom and top stay at centre -+ height / 2, so the selection
+    # is contained in the untilted one and never reaches above the top or below the bottom
+    try:
+        from pyquaternion import Quaternion
+
+        ot = real_box(b)
+        ot.state.orientation = ot.state.orientation * Quaternion(axis=[0, 1, 0], radians=0.3) * Quaternion(axis=[1, 0, 0], radians=-0.2)
+        gt_ = ids(ot.crop_pointcloud(cl, bbox_scale=s, inside=True))
+        gt_out = ids(ot.crop_pointcloud(cl, bbox_scale=s, inside=False))
+        zs = {int(round(r[3])): r[2] for r in cl}
+        half = float(b["s"][2]) / 2.0
+        bad = sorted(i for i in gt_ if abs(zs[i] - float(b["c"][2])) > half + 1e-9)
+        if bad or not gt_ <= (inside | bnd):
+            mism.append(("tilted-box-above-top-or-below-bottom", "pitched/rolled box selects %d points outside the untilted selection (%d beyond bottom/top)" % (len(gt_ - inside - bnd), len(bad)), rep))
+        if gt_ & gt_out or len(gt_) + len(gt_out) != len(cl):
+            mism.append(("partition", "tilted box: inside and outside selections do not partition the cloud", rep))
+    except Exception as ex_:
+        mism.append(("raised", "tilted box raised %r" % (ex_,), rep))
     # intensity column and a 3-column cloud select the same points
     g3 = o.crop_pointcloud(cl[:, :3].copy(), bbox_scale=s)
     if len(g3) != len(gin):
